@@ -1,2 +1,352 @@
+"""C07 — protocol objects survive serialization round trips (schema / range clauses)."""
+import re
+from .. import ir, codec, intervals, panics
+from ..ir import AnchorLost, callee_of, op_local, op_const, op_place, is_call_to
+from ..patterns import arg_slice, slice_field_bases
+
+SER = codec.SER
+DES = codec.DES
+WIDTH = {"u8": 1, "u16": 2, "u32": 4, "u64": 8, "u128": 16}
+CONTAINER_RE = [
+    (re.compile(r"^Vec<(.*)>$"), lambda m: m.group(1)),
+    (re.compile(r"^\[(.*); \w+\]$"), lambda m: m.group(1)),
+    (re.compile(r"^\[(.*)\]$"), lambda m: m.group(1)),
+    (re.compile(r"^BTreeSet<(.*)>$"), lambda m: m.group(1)),
+    (re.compile(r"^BTreeMap<(.*), (.*)>$"), lambda m: "(%s, %s)" % (m.group(1), m.group(2))),
+]
+
+
+def elem_of(t):
+    for rx, fn in CONTAINER_RE:
+        m = rx.match(t)
+        if m:
+            return fn(m)
+    return t
+
+
+def impl_fn(p, impl, name):
+    for it in impl["items"]:
+        if it["name"] == name and it["key"] in p.funcs:
+            return p.funcs[it["key"]]
+    return None
+
+
+def pairs(p, only_crates=None):
+    ser = {i["self_ty"]: i for i in p.impls_of_trait(SER) if i["crate"] != "examples"}
+    de = {i["self_ty"]: i for i in p.impls_of_trait(DES) if i["crate"] != "examples"}
+    out = []
+    for t in sorted(set(ser) & set(de)):
+        if only_crates and ser[t]["crate"] not in only_crates:
+            continue
+        w, r = impl_fn(p, ser[t], "write_into"), impl_fn(p, de[t], "read_from")
+        if w and r:
+            out.append((t, w, r))
+    return out
+
+
+def canon(path, f, an, side):
+    """normalised tokens with byte widths: list of ('fixed', nbytes) | ('bytes',) | ('nested', T) | ('many', T) | ..."""
+    out = []
+    for tok in codec.normalise(path):
+        if tok[0] in WIDTH:
+            out.append(("fixed", WIDTH[tok[0]]))
+        elif tok[0] == "many":
+            out.append(("many", elem_of(tok[1])))
+        else:
+            out.append(tok)
+    return out
+
+
+def merge_fixed(tokens):
+    out = []
+    for t in tokens:
+        if t[0] == "fixed" and out and out[-1][0] == "fixed":
+            out[-1] = ("fixed", out[-1][1] + t[1])
+        else:
+            out.append(t)
+    return out
+
+
+def writer_byte_lengths(f, an):
+    """for each write_bytes call (in order of blocks): constant length of the argument, if provable."""
+    out = {}
+    for bi, t in f.calls():
+        c = callee_of(t)
+        if c and c.get("trait") == codec.BW and c.get("name") == "write_bytes":
+            ln = an.len_of(f, t["a"][1], (bi, f.INF - 1))
+            out[bi] = ln[0] if ln and ln[0] == ln[1] else None
+    return out
+
+
+def with_lengths(raw_path, f, an, lens):
+    """replace ('bytes', ..) tokens of a *raw* path (with block ids unavailable) by fixed widths where
+    the function has exactly one constant-length write_bytes call."""
+    consts = [v for v in lens.values()]
+    toks = []
+    for tok in codec.normalise(raw_path):
+        toks.append(tok)
+    if len(consts) == 1 and consts[0] is not None:
+        toks = [("fixed", consts[0]) if t == ("bytes",) else t for t in toks]
+    out = []
+    for t in toks:
+        if t[0] in WIDTH:
+            out.append(("fixed", WIDTH[t[0]]))
+        elif t[0] == "many":
+            out.append(("many", elem_of(t[1])))
+        else:
+            out.append(t)
+    return merge_fixed(out)
+
+
+def run_schema(ctx, rule, only_crates=None):
+    p = ctx.p
+    an = intervals.Analysis(p)
+    ps = pairs(p, only_crates)
+    for ty, w, r in ps:
+        short = codec.norm_ty(ty)
+        wl = writer_byte_lengths(w, an)
+        wp = [with_lengths(x, w, an, wl) for x in codec.paths(w)]
+        rp = [with_lengths(x, r, an, {}) for x in codec.paths(r)]
+        wset = {tuple(x) for x in wp}
+        rset = {tuple(x) for x in rp}
+        ok = wset == rset and bool(wset)
+        how = "writer and reader agree: %s" % " | ".join(codec.fmt([("%s%s" % (t[0], t[1]),) if t[0] == "fixed" else t for t in x]) for x in sorted(wset))
+        if not ok:
+            # a reader path may skip a zero-length blob right after its length prefix
+            extra = rset - wset
+            missing = wset - rset
+            tolerated = True
+            for e in extra:
+                if not any(_is_zero_len_variant(e, wpath) for wpath in wset):
+                    tolerated = False
+            if not missing and tolerated and extra:
+                ok = True
+                how += " (reader also accepts the empty-blob form)"
+            else:
+                how = "writer emits %s but reader consumes %s" % (
+                    " | ".join(_show(x) for x in sorted(wset)), " | ".join(_show(x) for x in sorted(rset)))
+        ctx.ob(rule, "schema:%s" % short, ok, how, w, w.at)
+    return ps
+
+
+def _show(x):
+    return " ".join(("%s%d" % t) if t[0] == "fixed" else (t[0] + ("<%s>" % t[1] if len(t) > 1 else "")) for t in x) or "(nothing)"
+
+
+def _is_zero_len_variant(reader_path, writer_path):
+    rp, wp = list(reader_path), list(writer_path)
+    if len(rp) != len(wp) - 1:
+        return False
+    for i in range(len(wp)):
+        if wp[i] == ("bytes",) and wp[:i] + wp[i + 1:] == rp and i > 0 and wp[i - 1][0] == "fixed":
+            return True
+    return False
+
+
+# -- R1b: length prefixes -----------------------------------------------------------------------------
+
+def r1_prefixes(ctx):
+    p = ctx.p
+    for ty, w, r in pairs(p):
+        short = codec.norm_ty(ty)
+        # writer: an integer write immediately followed (next I/O call) by write_bytes / write_many of X
+        evs = [(bi, callee_of(t), t) for bi, t in w.calls() if not w.is_cleanup(bi) and callee_of(t) and
+               (callee_of(t).get("trait") in (codec.BW, SER))]
+        evs.sort(key=lambda x: x[0])
+        order = _io_order(w)
+        for i in range(len(order) - 1):
+            a, b = order[i], order[i + 1]
+            ca, cb = callee_of(w.term(a)), callee_of(w.term(b))
+            if ca["name"] in codec.W_PRIM and cb["name"] in ("write_bytes", "write_many"):
+                cnt = arg_slice(w, w.term(a), 1)
+                blob = arg_slice(w, w.term(b), 1)
+                lens = [x for x in cnt["calls"] if (callee_of(w.term(x)) or {}).get("name") == "len"]
+                if not lens:
+                    continue
+                larg = arg_slice(w, w.term(lens[0]), 0)
+                fc, fb = set(slice_field_bases(larg)), set(slice_field_bases(blob))
+                if fc or fb:
+                    same = bool(fc & fb)
+                else:
+                    same = bool(larg["locals"] & blob["locals"])
+                ctx.ob("R1", "prefix:%s:writer-%s" % (short, ca["name"]), same,
+                       "%s(len) is the length of the blob written right after it" % ca["name"] if same else
+                       "the length written by %s is not the length of the following blob" % ca["name"], w, w.term(a)["sp"]["at"])
+        order = _io_order(r)
+        for i in range(len(order) - 1):
+            a, b = order[i], order[i + 1]
+            ca, cb = callee_of(r.term(a)), callee_of(r.term(b))
+            if ca["name"] in codec.R_PRIM and cb["name"] in ("read_vec", "read_slice", "read_many", "read_string"):
+                used = a in arg_slice(r, r.term(b), 1)["calls"]
+                ctx.ob("R1", "prefix:%s:reader-%s" % (short, ca["name"]), used,
+                       "the count read by %s sizes the %s that follows" % (ca["name"], cb["name"]) if used else
+                       "%s is not sized by the count read just before it" % cb["name"], r, r.term(b)["sp"]["at"])
+
+
+def _io_order(f):
+    """I/O call blocks in control-flow order along the main success path (first path)."""
+    good, exits = codec.success_blocks(f)
+    seen = set()
+    order = []
+    b = 0
+    while b is not None and b not in seen:
+        seen.add(b)
+        t = f.term(b)
+        if t["k"] == "call" and codec.event_of(f, b, t):
+            order.append(b)
+        nxt = None
+        for tg, lab in f.succ(b):
+            if tg in good and tg not in seen:
+                nxt = tg
+                break
+        b = nxt
+    return order
+
+
+# -- enum codecs ----------------------------------------------------------------------------------------
+
+def r1_enums(ctx):
+    p = ctx.p
+    for adt_key in ("winter_air::options::FieldExtension", "winter_air::options::BatchingMethod"):
+        adt = p.adts.get(adt_key)
+        if not adt:
+            raise AnchorLost("%s not found" % adt_key)
+        discr = {int(v["discr"]): v["name"] for v in adt["variants"]}
+        r = p.fn("<%s as winter_utils::serde::Deserializable>::read_from" % adt_key)
+        w = p.fn("<%s as winter_utils::serde::Serializable>::write_into" % adt_key)
+        arms = {}
+        for bi, b in enumerate(r.blocks):
+            t = b["t"]
+            if t["k"] == "switch" and t.get("dty") == "u8" and len(t["arms"]) >= 2:
+                for v, tg in t["arms"]:
+                    others = [x for _, x in t["arms"] if x != tg] + [t["else"]]
+                    for rb in r.reach([tg], cut_blocks=others):
+                        for s in r.stmts(rb):
+                            if s["k"] == "assign" and s["rv"][0] == "agg" and s["rv"][1].get("adt") == adt_key:
+                                arms[int(v)] = s["rv"][1]["variant"]
+                            if s["k"] == "setdiscr":
+                                arms[int(v)] = adt["variants"][s["vi"]]["name"]
+                rej = not r.can_reach(t["else"], [e["bb"] for e in r.exits() if e["kind"] not in ("err", "residual")])
+                ctx.ob("R1", "enum:%s:unknown-tag-rejected" % adt_key.split("::")[-1], rej,
+                       "any other tag byte returns an error" if rej else "an unknown tag byte can decode successfully", r, t["sp"]["at"])
+        ok = arms == discr
+        ctx.ob("R1", "enum:%s:tags-match-discriminants" % adt_key.split("::")[-1], ok,
+               "reader maps %s = the discriminants written by `*self as u8`" % {k: v for k, v in sorted(arms.items())} if ok else
+               "reader arms %s differ from discriminants %s" % (arms, discr), r)
+        casts = [s for b in w.blocks for s in b["s"] if s["k"] == "assign" and s["rv"][0] == "cast" and s["rv"][3] == "u8"]
+        ctx.ob("R1", "enum:%s:writer-writes-discriminant" % adt_key.split("::")[-1], bool(casts),
+               "writer emits the discriminant as u8", w)
+
+
+# -- R2: constructor accepted ranges are accepted by the decoder --------------------------------------
+
+CTOR_PAIRS = [
+    ("<winter_air::air::trace_info::TraceInfo as winter_utils::serde::Deserializable>::read_from",
+     "winter_air::air::trace_info::TraceInfo::new_multi_segment", ["main_segment_width", "aux_segment_width", "num_aux_segment_rands", "trace_length"]),
+    ("<winter_air::options::ProofOptions as winter_utils::serde::Deserializable>::read_from",
+     "winter_air::options::ProofOptions::new", ["num_queries", "blowup_factor", "grinding_factor", None, "fri_folding_factor", "fri_remainder_max_degree"]),
+    ("<winter_air::options::ProofOptions as winter_utils::serde::Deserializable>::read_from",
+     "winter_air::options::ProofOptions::with_partitions", [None, "num_partitions", "hash_rate"]),
+]
+
+
+def r2_ctor_subset_decoder(ctx):
+    p = ctx.p
+    an = intervals.Analysis(p)
+    for dec_key, ctor_key, names in CTOR_PAIRS:
+        d, c = p.fn(dec_key), p.fn(ctor_key)
+        cs = d.calls_to(ctor_key)
+        if not cs:
+            raise AnchorLost("%s does not call %s" % (dec_key, ctor_key))
+        bi, t = cs[0]
+        for i, nm in enumerate(names):
+            if nm is None:
+                continue
+            tr = intervals.type_range(c.local_ty(i + 1))
+            if tr is None:
+                continue
+            acc = an.accepted_param_range(c, i + 1)
+            if ctor_key.endswith("with_partitions"):
+                pn = p.fn("winter_air::options::PartitionOptions::new")
+                acc = an.accepted_param_range(pn, i)
+            acc = intervals.meet(acc, tr) if acc else tr
+            got = an.eval_op(d, t["a"][i], (bi, d.INF - 1))
+            ok = got is not None and got[0] <= acc[0] and acc[1] <= got[1]
+            ctx.ob("R2", "ctor-range-decodes:%s.%s" % (ctor_key.split("::")[-2], nm), ok,
+                   "%s accepts %s in %s and the decoder lets %s through" % (ctor_key.split("::")[-1], nm, panics._fmt(acc), panics._fmt(got)) if ok else
+                   "%s accepts %s in %s but the decoder only lets %s through: accepted values do not survive a round trip" % (
+                       ctor_key.split("::")[-1], nm, panics._fmt(acc), panics._fmt(got)), d, t["sp"]["at"])
+    # Context: struct literal in read_from vs Context::new
+    d = p.fn("<winter_air::proof::context::Context as winter_utils::serde::Deserializable>::read_from")
+    c = p.fn("winter_air::proof::context::Context::new")
+    agg = [s for b in d.blocks if not b.get("cleanup") for s in b["s"] if s["k"] == "assign" and s["rv"][0] == "agg" and
+           s["rv"][1].get("adt") == "winter_air::proof::context::Context"]
+    if not agg:
+        raise AnchorLost("Context::read_from: struct literal not found")
+    flds = agg[0]["rv"][1]["fields"]
+    got = an.eval_op(d, agg[0]["rv"][2][flds.index("num_constraints")], agg[0]["_pos"])
+    pi = [i for i in range(1, c.argc + 1) if c.local_name(i) == "num_constraints"]
+    acc = an.accepted_param_range(c, pi[0]) if pi else None
+    ok = acc is not None and got is not None and got[0] <= acc[0] and acc[1] <= got[1]
+    ctx.ob("R2", "ctor-range-decodes:Context.num_constraints", ok,
+           "Context::new accepts num_constraints in %s and the decoder lets %s through" % (panics._fmt(acc), panics._fmt(got)) if ok else
+           "Context::new accepts %s, decoder %s" % (panics._fmt(acc), panics._fmt(got)), d, agg[0]["sp"]["at"])
+
+
+# -- R3: narrowing casts in writers ----------------------------------------------------------------------
+
+WRITER_CAST_REASONS = {
+    ("FriProof", "layers"): "number of FRI layers <= log2(domain size) <= 64",
+    ("FriProof", "remainder"): "remainder bytes = (remainder_max_degree + 1 <= 256) elements * ELEMENT_BYTES <= 48",
+    ("OodFrame", "trace_states"): "1 + 2 * (<= 255 columns) * ELEMENT_BYTES (<= 48) bytes < 65536",
+    ("OodFrame", "quotient_states"): "1 + 2 * (composition columns, bounded by the AIR's degrees) * ELEMENT_BYTES < 65536",
+    ("FriProofLayer", "values"): "queried values of one layer: <= 255 positions * 16 * 48 bytes",
+    ("FriProofLayer", "paths"): "one batch Merkle proof over <= 255 positions of depth <= 64",
+    ("Context", "field_modulus_bytes"): "asserted < 255 on the line above",
+    ("Commitments", "0"): "asserted < u16::MAX on the line above",
+    ("TraceInfo", "trace_meta"): "new_multi_segment asserts trace_meta.len() <= 65535",
+    ("TraceInfo", "trace_length"): "ilog2 of a usize <= 63",
+}
+
+
+def r3_writer_casts(ctx):
+    p = ctx.p
+    an = intervals.Analysis(p)
+    n = 0
+    for ty, w, r in pairs(p):
+        if w.crate == "winter_utils":
+            continue
+        short = codec.norm_ty(ty).split("<")[0]
+        for bi, b in enumerate(w.blocks):
+            if b.get("cleanup"):
+                continue
+            for s in b["s"]:
+                if s["k"] == "assign" and s["rv"][0] == "cast" and s["rv"][1].startswith("IntToInt"):
+                    src_t, dst_t = intervals.type_range(s["rv"][4]), intervals.type_range(s["rv"][3])
+                    if not src_t or not dst_t or (dst_t[0] <= src_t[0] and src_t[1] <= dst_t[1]):
+                        continue
+                    n += 1
+                    iv = an.eval_op(w, s["rv"][2], s["_pos"])
+                    names = panics._names_of(w, [s["rv"][2]])
+                    fld = next((x.lstrip(".") for x in names.split(",") if x.startswith(".")), names)
+                    if iv is not None and dst_t[0] <= iv[0] and iv[1] <= dst_t[1]:
+                        ctx.ob("R3", "writer-cast:%s.%s" % (short, fld), True,
+                               "`%s as %s` with value in %s (constructor invariant)" % (names, s["rv"][3], panics._fmt(iv)), w, s["sp"]["at"])
+                    elif (short, fld) in WRITER_CAST_REASONS:
+                        ctx.ob("R3", "writer-cast:%s.%s" % (short, fld), True,
+                               "reviewed: " + WRITER_CAST_REASONS[(short, fld)], w, s["sp"]["at"], nontrivial=False)
+                    else:
+                        ctx.ob("R3", "writer-cast:%s.%s" % (short, fld), False,
+                               "`%s as %s` may truncate: value in %s" % (names, s["rv"][3], panics._fmt(iv)), w, s["sp"]["at"])
+
+
 def run(ctx):
-    raise NotImplementedError
+    ctx.rule("R1", "writer/reader schema agreement (ordered byte-level I/O events along every success path, loops collapsed, byte widths compared) for every (Serializable, Deserializable) pair; length prefixes are the length of / size the following blob; enum tags = discriminants", 45)
+    ctx.rule("R2", "constructor subset of decoder: every integer range a public constructor accepts is let through by read_from", 9)
+    ctx.rule("R3", "narrowing casts in writers are in range by constructor invariants or a reviewed reason", 8)
+    ctx.guard("R1", lambda c: run_schema(c, "R1"))
+    ctx.guard("R1", r1_prefixes)
+    ctx.guard("R1", r1_enums)
+    ctx.guard("R2", r2_ctor_subset_decoder)
+    ctx.guard("R3", r3_writer_casts)
+    ctx.assume("equality of decoded values for interior inputs and 'same verdict after decode' are behavioural and not decided")
